@@ -3,6 +3,7 @@ package sim
 import (
 	"bytes"
 	"fmt"
+	"os"
 	"runtime"
 	"sort"
 	"strconv"
@@ -85,6 +86,8 @@ type Sched struct {
 	Panic          string // non-empty: the code under test panicked (value + stack)
 }
 
+var logSeq int
+
 func goid() uint64 {
 	var buf [64]byte
 	n := runtime.Stack(buf[:], false)
@@ -111,7 +114,21 @@ func (s *Sched) Yield(site string) {
 		return
 	}
 	name, ok := s.names[gid]
+	if ok && name == "" {
+		// not one of ours (see below)
+		s.mu.Unlock()
+		return
+	}
 	if !ok {
+		// The runtime's finalizer goroutine can end up here: an abandoned compressing writer (a
+		// cancelled WritePatch never closes its brotli writer) is closed by its finalizer, which
+		// writes to a simulated Writer. That goroutine is not part of the simulation - when it runs
+		// is up to the garbage collector - and must never be parked.
+		if strings.Contains(stack(), "runtime.runFinalizers") {
+			s.names[gid] = ""
+			s.mu.Unlock()
+			return
+		}
 		base := site
 		if i := strings.IndexByte(base, '#'); i >= 0 {
 			base = base[:i]
@@ -373,6 +390,11 @@ func (s *Sched) Run(t *testing.T, fn func()) {
 	}()
 	Ev.Steps(s.Steps)
 	Ev.EventLog(s.LogHash())
+	if d := os.Getenv("VERIF_LOG_DIR"); d != "" {
+		// determinism debugging: every run's event log as a file, numbered in order
+		logSeq++
+		os.WriteFile(fmt.Sprintf("%s/%06d.log", d, logSeq), []byte(strings.Join(s.Log, "\n")+"\n"), 0o644)
+	}
 	if s.Leaked {
 		Ev.mu.Lock()
 		Ev.Leaks++
